@@ -117,6 +117,7 @@ class ExcelCompiler:
             assert self.cycles.keys() == {'iterations', 'tolerance'}
 
         self.Cell = _CycleCell if self.cycles else _Cell
+        self.CellRange = _CycleCellRange if self.cycles else _CellRange
         self.evaluate = (self._evaluate_iterative if self.cycles else
                          self._evaluate_non_iterative)
 
@@ -737,7 +738,7 @@ class ExcelCompiler:
             return [a_cell]
 
         def build_range(excel_range):
-            a_range = _CellRange(excel_range, excel=self.excel)
+            a_range = self.CellRange(excel_range, excel=self.excel)
             self.cell_map[str(excel_range.address)] = a_range
 
             added = [a_range]
@@ -805,7 +806,7 @@ class ExcelCompiler:
             if cell_range.address.is_unbounded_range:
                 bounded_addr = str(self.eval(cell_range))
                 bounded_addr_cell = self.cell_map.get(bounded_addr)
-                if bounded_addr_cell.value is None:
+                if bounded_addr_cell.needs_calc:
                     self._evaluate(bounded_addr)
                 data = bounded_addr_cell.value
 
@@ -1217,6 +1218,35 @@ class _CycleCell(_Cell):
     @property
     def needs_calc(self):
         return not self.wip and not iterative_eval_tracker.is_calced(self)
+
+
+class _CycleCellRange(_CellRange):
+    """Range which participates in a iterative calculation
+
+    As for a _CycleCell, the members of the range can change anytime, so
+    the value of the range is calculated again in every iteration.
+    """
+
+    def __init__(self, *args, **kwargs):
+        self._value = None
+        super().__init__(*args, **kwargs)
+
+    @property
+    def value(self):
+        return self._value
+
+    @value.setter
+    def value(self, a_value):
+        if a_value is not None:
+            iterative_eval_tracker.calced(self)
+        self._value = a_value
+
+    def start_calcs(self):
+        """a range does not break a cycle, its members do"""
+
+    @property
+    def needs_calc(self):
+        return not iterative_eval_tracker.is_calced(self)
 
 
 class _CompiledImporter:
